@@ -144,7 +144,7 @@ def ctor_case(name):
                     except Exception as ex:
                         continue
                     out["accepted"].append(["".join(vec), mode.name, version])
-                    pr = [p for p in tealcheck.validate(teal, version, mode.name) if "applied to" in p]
+                    pr = tealcheck.discipline(teal, version, mode.name)      # every stack / type clause, not only operand types
                     if pr:
                         out["problems"].append({"vector": "".join(vec), "mode": mode.name, "version": version, "what": pr[0], "teal": teal})
                     done = True
